@@ -396,7 +396,7 @@ class SourceHandler:
             raise InvalidTransactionSeqNum(
                 self._params.transaction_seq_num, packet.transaction_seq_num
             )
-        if packet.directive_type in [
+        if packet.pdu_type == PduType.FILE_DATA or packet.directive_type in [
             DirectiveType.METADATA_PDU,
             DirectiveType.EOF_PDU,
             DirectiveType.PROMPT_PDU,
